@@ -458,6 +458,7 @@ func TestVerifC04(t *testing.T) {
 	c04API(c, mc.Pick(c, 5, 6))
 	c04Multisets(c, mc.Pick(c, 7, 10))
 	c04Slots(c, mc.Pick(c, 3, 4))
+	c04Long(c)
 	mc.FirstCalls(c, c04Calls, "TestVerifC04Fresh", "VERIF_C04_CALLS")
 	if code := c.Finish(); code != 0 {
 		os.Exit(code)
